@@ -32,6 +32,8 @@ def run(c: Check):
              name="sanity: unconditional clean-up after a newer sync")
     c.tlc_mc("ProfileDB", "ProfileDB_sanity_human.cfg", expect_violation="LookupCorrect",
              name="sanity: human-id lookup ignores the requested profile")
+    c.tlc_mc("ProfileDB", "ProfileDB_sanity_record.cfg", expect_violation="LookupCorrect",
+             name="sanity: human-id lookup trusts the requested profile's (possibly old) record")
     if th:
         c.tlc_mc("ProfileDB", "ProfileDB_mc_big.cfg", timeout=2400,
                  name="2 profiles, 3 devices, 2 linked IPs, 5 mutations")
@@ -41,6 +43,9 @@ def run(c: Check):
     out, _ = c.go_harness("internal/profiledb", "^TestVerifC14Stepper$", rewrites=overlay(c),
                           env={"VERIF_IN": inp, "VERIF_NRANDOM": 3000 if th else 250}, files=["c14_test.go"])
     ev = read_ndjson(out)
+    nquiet = sum(1 for e in ev if e["ev"] == "MoveQuiet")
+    if nquiet < 5:
+        raise Undecided("vacuous: %d moves reported with the new profile only" % nquiet)
     fails = c.validate_segments("TraceProfileDB", "TraceProfileDB.cfg", ev, timeout=1800)
     # soft binding of the implementation-shaped part of the model
     drift = c.validate_segments("TraceProfileDB", "TraceProfileDB_model.cfg",
